@@ -37,7 +37,7 @@ func checkC20(c *Ctx) {
 	c.MinCount("R20.1", 2)
 	c.MinCount("R20.2", 3)
 	c.MinCount("R20.4", 5)
-	c.MinCount("R20.5", 3)
+	c.MinCount("R20.5", 1)
 	c.DecidedClause("handlers are grouped by a key that depends on the physical location only; every discovered handler is appended exactly once to its group (no filter, no overwrite), every handler of a group becomes a handler of the device and takes part in the type decision, one device per group; the classification functions use their slice arguments only through len() and whole-slice iteration (no element is selected by position), and the type precedence is joystick, then standard keyboard, then not playable")
 	c.DecidedClause("what a device takes from its handlers by position (ID) or by a first-wins scan (name, uniq) is taken after the group was sorted by a key that reads those fields: it does not depend on the discovery order")
 }
@@ -275,7 +275,7 @@ func ruleEveryHandlerOnce(c *Ctx, norm, ddt *ssa.Function) {
 	check("R20.2", "input.Normalize/every-group-member-becomes-a-handler", handlersApp, "device handlers", false)
 	// the type is decided from the whole group: DetermineDeviceType is given the group itself, or a list to which every member
 	// of the group is appended
-	groupItself := ddtCall != nil && isGroupValue(ddtCall.Call.Args[0])
+	groupItself := ddtCall != nil && (isGroupValue(ddtCall.Call.Args[0]) || isGroupCopy(ddtCall.Call.Args[0]))
 	if groupItself {
 		c.OK("R20.3", "input.Normalize/type-decided-from-whole-group", c.P.Pos(ddtCall.Pos()), "DetermineDeviceType is given the group of the location itself")
 	} else {
@@ -395,12 +395,12 @@ func idxEscapes(idx ssa.Value) bool {
 
 // ruleTypePrecedence: R20.5 joystick first, then standard keyboard.
 func ruleTypePrecedence(c *Ctx, ddt *ssa.Function) {
-	paths, err := Enumerate(ddt, SymConfig{Prog: c.P, MaxDepth: 1, Collapse: true, OnlyInline: map[*ssa.Function]bool{}})
+	// decided by valuation: for every list of up to three handlers whose HandlerType() is joystick-like, standard keyboard,
+	// mouse or something else (85 lists, hence every order of every multiset), the function is executed symbolically with
+	// the list as a literal and the results of HandlerType() as constants; the one consistent path must return what the
+	// statement says: joystick if any handler is joystick-like, otherwise keyboard if any is a standard keyboard, otherwise
+	// neither.  Any formulation (ordered scans, a presence table, a fold) is accepted.
 	pos := c.P.Pos(ddt.Pos())
-	if !c.Require(err == nil, "R20.5", "input.DetermineDeviceType", fmt.Sprint(err)) {
-		return
-	}
-	c.Paths += len(paths)
 	val := func(name string) int64 {
 		v, ok := c.P.constValue(pkgInput, name)
 		if !ok {
@@ -410,57 +410,103 @@ func ruleTypePrecedence(c *Ctx, ddt *ssa.Function) {
 		return i
 	}
 	joyDev, kbdDev := val("JoystickDevice"), val("KeyboardDevice")
-	joyH, kbdH := val("DI_TYPE_JOYSTICK"), val("DI_TYPE_STD_KBD")
-	contains := c.P.Func(pkgInput, "", "contains")
-	seenJoy, seenKbd, seenOther := false, false, false
-	for _, p := range paths {
-		if p.End != "return" || len(p.Ret) != 1 {
-			c.Bad("R20.5", "input.DetermineDeviceType/ends", pos, "path ends with "+p.End)
-			continue
+	joyH, kbdH, mouseH, otherH := val("DI_TYPE_JOYSTICK"), val("DI_TYPE_STD_KBD"), val("DI_TYPE_MOUSE"), val("DI_TYPE_NKRO_KBD")
+	ht := c.P.Func(pkgInput, "DeviceInfo", "HandlerType")
+	if !c.Require(joyDev != -999 && kbdDev != -999 && joyH != -999 && kbdH != -999 && ht != nil && len(ddt.Params) == 1, "R20.5", "anchor:input.DetermineDeviceType", "constants / HandlerType / parameter not found") {
+		return
+	}
+	kinds := []int64{joyH, kbdH, mouseH, otherH}
+	var elemType types.Type
+	if sl, ok := ddt.Params[0].Type().Underlying().(*types.Slice); ok {
+		elemType = sl.Elem()
+	}
+	n, bad := 0, ""
+	var lists [][]int64
+	for ln := 0; ln <= 3; ln++ {
+		total := 1
+		for i := 0; i < ln; i++ {
+			total *= len(kinds)
 		}
-		ret, _ := p.Ret[0].IsIntConst()
-		// ordered tests on this path: (handler type constant, outcome)
-		type test struct {
-			h   int64
-			res bool
-			any bool // tested with contains (any handler) as opposed to containsOnly
-		}
-		var tests []test
-		for _, a := range p.Atoms {
-			cnd, taken := a.Cond, a.Taken
-			for cnd.Op == "unop" && cnd.Aux == "!" {
-				cnd, taken = cnd.Args[0], !taken
+		for code := 0; code < total; code++ {
+			var l []int64
+			x := code
+			for i := 0; i < ln; i++ {
+				l = append(l, kinds[x%len(kinds)])
+				x /= len(kinds)
 			}
-			if cnd.Op != "call" {
-				continue
-			}
-			h := int64(-1)
-			cnd.Walk(func(t *Term) bool {
-				if k, ok := t.IsIntConst(); ok && t.Type != nil && strings.Contains(t.Type.String(), "HandlerType") {
-					h = k
-				}
-				return true
-			})
-			tests = append(tests, test{h, taken, contains != nil && strings.HasPrefix(cnd.Aux, contains.String())})
-		}
-		switch ret {
-		case joyDev:
-			seenJoy = true
-			okP := len(tests) == 1 && tests[0].h == joyH && tests[0].res && tests[0].any
-			c.Check(okP, "R20.5", "input.DetermineDeviceType/joystick-first", pos, "joystick iff some handler is joystick-like, tested first", "a joystick result is not decided by `some handler is joystick-like` as the very first test: "+atomsString(p))
-		case kbdDev:
-			seenKbd = true
-			okP := len(tests) == 2 && tests[0].h == joyH && !tests[0].res && tests[1].h == kbdH && tests[1].res && tests[1].any
-			c.Check(okP, "R20.5", "input.DetermineDeviceType/keyboard-second", pos, "keyboard iff no joystick-like handler and some standard keyboard handler", "a keyboard result must follow a failed joystick test and a successful standard-keyboard test: "+atomsString(p))
-		default:
-			seenOther = true
-			okP := len(tests) >= 2 && tests[0].h == joyH && !tests[0].res && tests[1].h == kbdH && !tests[1].res
-			if !okP {
-				c.Bad("R20.5", "input.DetermineDeviceType/not-playable", pos, "a non-playable result is reachable although a joystick/keyboard handler may be present: "+atomsString(p))
-			}
+			lists = append(lists, l)
 		}
 	}
-	c.Check(seenJoy && seenKbd && seenOther, "R20.5", "input.DetermineDeviceType/three-outcomes", pos, "joystick, keyboard and not-playable outcomes all present", "an outcome is missing")
+	for _, l := range lists {
+		var elems []*Term
+		for i := range l {
+			elems = append(elems, &Term{Op: "param", Aux: fmt.Sprintf("handler#%d", i), Type: elemType})
+		}
+		list := &Term{Op: "slicelit", Args: elems, Type: ddt.Params[0].Type()}
+		lcopy := l
+		hook := func(callee *ssa.Function, args []*Term, load func(addr *Term, typ types.Type) *Term) *Term {
+			if callee != ht || len(args) != 1 {
+				return nil
+			}
+			t := args[0]
+			if t.Op != "param" {
+				t = load(args[0], elemType)
+			}
+			if t != nil && t.Op == "param" && strings.HasPrefix(t.Aux, "handler#") {
+				var i int
+				fmt.Sscanf(t.Aux, "handler#%d", &i)
+				if i < len(lcopy) {
+					return constTerm(constant.MakeInt64(lcopy[i]), callee.Signature.Results().At(0).Type())
+				}
+			}
+			return nil
+		}
+		paths, err := Enumerate(ddt, SymConfig{Prog: c.P, MaxDepth: 3, MaxVisits: 8, ParamTerms: map[*ssa.Parameter]*Term{ddt.Params[0]: list}, CallHook: hook})
+		if err != nil {
+			c.Undec("R20.5", "input.DetermineDeviceType/valuations", pos, fmt.Sprint(err))
+			return
+		}
+		c.Paths += len(paths)
+		var rets []*Path
+		for _, p := range paths {
+			if p.End == "return" && len(p.Ret) == 1 {
+				// only paths whose conditions are all decided (constants folded): a remaining symbolic atom means the
+				// function looked at something other than the handler types
+				rets = append(rets, p)
+			} else if p.End != "cut" {
+				bad = fmt.Sprintf("handler types %v: a path ends with %s", l, p.End)
+			}
+		}
+		n++
+		if len(rets) != 1 {
+			if bad == "" {
+				bad = fmt.Sprintf("handler types %v: %d returning paths (the result depends on something other than the handler types)", l, len(rets))
+			}
+			continue
+		}
+		got, isK := rets[0].Ret[0].IsIntConst()
+		anyJoy, anyKbd := false, false
+		for _, k := range l {
+			anyJoy = anyJoy || k == joyH
+			anyKbd = anyKbd || k == kbdH
+		}
+		switch {
+		case !isK:
+			bad = fmt.Sprintf("handler types %v: non-constant result %s", l, rets[0].Ret[0])
+		case anyJoy && got != joyDev:
+			bad = fmt.Sprintf("handler types %v (a joystick-like handler present): result %d is not JoystickDevice", l, got)
+		case !anyJoy && anyKbd && got != kbdDev:
+			bad = fmt.Sprintf("handler types %v (no joystick-like handler, a standard keyboard present): result %d is not KeyboardDevice", l, got)
+		case !anyJoy && !anyKbd && (got == joyDev || got == kbdDev):
+			bad = fmt.Sprintf("handler types %v (neither joystick-like nor standard keyboard): result %d is a playable device type", l, got)
+		}
+	}
+	key := "input.DetermineDeviceType/joystick>keyboard>other-for-every-list-of-up-to-3-handlers"
+	if bad != "" {
+		c.Bad("R20.5", key, pos, bad)
+	} else {
+		c.OK("R20.5", key, pos, fmt.Sprintf("%d handler lists (all orders of all multisets over joystick-like / standard keyboard / mouse / other, length 0..3): result as specified", n))
+	}
 }
 
 // ruleNoHiddenState: R20.6 grouping and classification are functions of the handlers handed in: nothing they reach
@@ -618,6 +664,35 @@ func isGroupValue(v ssa.Value) bool {
 			v = stored
 		default:
 			return false
+		}
+	}
+	return false
+}
+
+// isGroupCopy: v is a slice made with the group's length into which the whole group is copied (copy(v, group)).
+func isGroupCopy(v ssa.Value) bool {
+	mk, ok := v.(*ssa.MakeSlice)
+	if !ok {
+		return false
+	}
+	lenOfGroup := func(x ssa.Value) bool {
+		call, ok := x.(*ssa.Call)
+		if !ok {
+			return false
+		}
+		bi, ok := call.Call.Value.(*ssa.Builtin)
+		return ok && bi.Name() == "len" && len(call.Call.Args) == 1 && isGroupValue(call.Call.Args[0])
+	}
+	if !lenOfGroup(mk.Len) {
+		return false
+	}
+	for _, r := range *mk.Referrers() {
+		call, ok := r.(*ssa.Call)
+		if !ok {
+			continue
+		}
+		if bi, ok := call.Call.Value.(*ssa.Builtin); ok && bi.Name() == "copy" && len(call.Call.Args) == 2 && call.Call.Args[0] == ssa.Value(mk) && isGroupValue(call.Call.Args[1]) {
+			return true
 		}
 	}
 	return false
